@@ -435,6 +435,17 @@ def main(argv=None):
             return 2
 
     t0 = time.time()
+    # one scratch directory per run: the workers' own directories and the temporary files PuLP
+    # writes for CBC (left behind when a solve is killed) live below it and go with it
+    import atexit
+    import shutil
+    import tempfile
+    base = '/dev/shm' if os.path.isdir('/dev/shm') and os.access('/dev/shm', os.W_OK) else None
+    run_tmp = tempfile.mkdtemp(prefix='mpverif-run-', dir=base)
+    os.environ['VERIF_RUN_TMP'] = run_tmp
+    os.environ['TMPDIR'] = run_tmp
+    tempfile.tempdir = run_tmp
+    atexit.register(shutil.rmtree, run_tmp, True)
     try:
         prop = load_prop(prop_id)
     except Exception:
